@@ -41,7 +41,7 @@ ASSUMPTIONS = [
     "mode='bspline': the cubic B-spline weights are taken from cubic_bspline_interpolation_weights as given (C14)",
     "the Lie bracket sign convention is the one of the code: lie_bracket(v, u) = Jac(v) u - Jac(u) v",
     "data types: the model's scalars are exact rationals, so integer-dtype inputs (cast to float32 by the code) and the "
-    "FlowFields / FlowField / modules.Curl entry points are covered by the `entry_points` oracle only, not by a theorem",
+    "modules.Curl entry point are covered by the `entry_points` oracle only; the default spacing FlowFields.curl / FlowField.curl derive from the axes is a theorem (C12_curl_default_spacing_is_axes_step, C12_flowfields_curl_affine) and a generated obligation",
 ]
 TRUSTED = ["model files Deepali/Model/{FD,FlowCalc}.lean are hand transcriptions of core/image.py "
            "(finite_differences, spatial_derivatives, conv1d), core/enum.py (SpatialDerivativeKeys, FlowDerivativeKeys), "
